@@ -10,9 +10,22 @@ def tiers(tier, quick, thorough):
     return quick if tier == "quick" else thorough
 
 
-def build_qt(tomo, sysname, m, flag, over=False):
+OVER = {"v": False}
+
+
+def with_testers(maker):
+    """obligation maker with an optional `testers` configuration entry (tester selection of c09.uniform_sel: False = Pauli,
+    "unbal2" = one 2-outcome POVM with elements of unequal trace, so that the constant part of the model differs between schedules).
+    Every obligation runs in its own process, so the module-level selection is private to it."""
+    def make(testers=False, **cfg):
+        OVER["v"] = testers
+        return maker(**cfg)
+    return make
+
+
+def build_qt(tomo, sysname, m, flag, over=None):
     import c09
-    sel = c09.uniform_sel(tomo, sysname, over)
+    sel = c09.uniform_sel(tomo, sysname, OVER["v"] if over is None else over)
     qt, tmpl = tomo_lib.build(tomo, sysname, m=m, flag=flag, sel=sel)
     sched = c08.default_schedules(tomo, sel)
     return qt, tmpl, sel, sched
@@ -318,6 +331,13 @@ def obligations(tier):
                     if tier == "quick" and (tomo, kind) == ("povmt", "re") and not (flag and weighted):
                         continue        # the generic relative entropy on POVMT needs minutes of lemma proofs: one configuration in quick
                     out += specs("C12.re", [{"tomo": tomo, "sysname": s, "m": m, "flag": flag, "kind": kind, "weighted": weighted}], ob_re, 4)
+    # testers with elements of unequal trace: the constant part (vecB) of the model differs from schedule to schedule
+    for flag in (True, False):
+        for kind in ("se", "se_fast"):
+            out += specs("C12.se.taylor", [{"tomo": "qst", "sysname": "Q1", "m": 0, "flag": flag, "kind": kind, "wmode": "identity", "testers": "unbal2"}], with_testers(ob_se_taylor), 3)
+        out += specs("C12.se.fast_eq_generic", [{"tomo": "qst", "sysname": "Q1", "m": 0, "flag": flag, "wmode": "custom", "testers": "unbal2"}], with_testers(ob_se_fast_eq_generic), 2)
+        for kind in ("re", "re_fast"):
+            out += specs("C12.re", [{"tomo": "qst", "sysname": "Q1", "m": 0, "flag": flag, "kind": kind, "weighted": True, "testers": "unbal2"}], with_testers(ob_re), 4)
     out += specs("C12.simple_quadratic", [{"n": n} for n in (2, 4)], ob_simple_quadratic, 1)
     return out
 
